@@ -146,6 +146,6 @@ func C04(tier string) int {
 		Assumptions: []string{"reference model refmodel implements the documented API contract (DESIGN.md appendix A)",
 			"keys from a small colliding alphabet incl. one key of pageSize/3 bytes; values of classes empty/8 bytes/0.3 page/2.5 pages",
 			"state merging by exact key: reads and failed operations are executed and checked once but not extended"},
-		Quick: 100 * time.Second, Thorough: 25 * time.Minute,
+		Quick: 100 * time.Second, Thorough: 10 * time.Minute,
 	}, tier)
 }
